@@ -3,6 +3,7 @@ A module that exposes a useful method (`timeout`) that can execute a
 function asynchronously and terminiate if it exceeds a given `duration`.
 """
 
+import os
 import sys
 import time
 
@@ -14,6 +15,17 @@ try:
     import ctypes
 except BaseException:
     ctypes = None
+
+
+#: Verification hook (inactive unless PEDAL_EDU_PEDAL_VERIF=1 and a checker
+#: installs a callback): lets a checker force the ordering of the grader
+#: thread and the interrupted student thread at three named points.
+_VERIF_SYNC = None
+
+
+def _verif_sync(point):
+    if _VERIF_SYNC is not None and os.environ.get('PEDAL_EDU_PEDAL_VERIF') == '1':
+        _VERIF_SYNC(point)
 
 
 class InterruptableThread(threading.Thread):
@@ -90,6 +102,7 @@ def timeout(duration, func, *args, **kwargs):
 
     if target_thread.is_alive():
         target_thread.terminate()
+        _verif_sync("timeout.terminated")
         timeout_exception = TimeoutError('Your code took too long to run '
                                          '(it was given {} seconds); '
                                          'maybe you have an infinite loop?'.format(duration))
